@@ -5,6 +5,17 @@ import sys, json, re, os
 ROOT = os.path.dirname(os.path.dirname(os.path.dirname(os.path.abspath(__file__))))
 RULES = {
  "C01": [
+  (r"KeepPadding\+Minify\|`(&&|\|\|)` must be followed", "F-let-minify: Minify keeps no separator after the last expression of a `let` clause, so a following && || | & or redirection is glued to it and re-parsed as arithmetic"),
+  (r"Minify\|(not a valid arithmetic operator: `0`|`w` must be followed by `;` near \"0)", "F-minify-minus: Minify prints the arithmetic `i - -1` as `i--1`, which re-parses as a decrement"),
+  (r"Minify\|(`(if|until|while|if <w>)`|statements must be separated|a command can only contain words and redirects; encountered `\(`)", "F-empty-block: an empty `{ }` (valid in mksh and zsh) is printed as `{}` under Minify, which re-parses as a command word and derails whatever follows"),
+  (r"SingleLine\|statements must be separated", "F-singleline-empty-block: SingleLine prints no `;` between a statement ending in an empty `{ }` block (possibly negated or with redirections) and the next statement"),
+  (r"SingleLine\|unclosed here-document", "F-singleline-heredoc: SingleLine joins the lines that follow a here-document operator inside a case item (`;;&`, the next pattern) onto the operator's line but leaves the body after them, so the body is no longer where the parser looks for it"),
+  (r"Indent=0\|(statements must be separated by &, ; or a newline near \"EOF|unclosed here-document `-EOF`)", "F-let-redirect: a here-document written before a `let` clause (zsh) is printed after its expressions, `let i++ j=2 <<-EOF`, where `<<` re-parses as a shift operator"),
+  (r"sub-reparse-error\|Indent=0\|Command: reached `\)` without matching `\(\(`", "F-paren-space: a function whose body is a subshell starting with an arithmetic command, fn() ( ((..)) ), is printed on its own as `fn() ((((`, which re-parses as arithmetic"),
+  (r"FlagsArithm|sub-tree-changed\|Indent=0(\+FunctionNextLine)?\|Word$", "F-zsh-subflags-newline: for a zsh subscript flag group containing a newline, $x[(r<newline>)1], the printer inserts a backslash-newline before the subscript argument, which changes the argument when the node is printed on its own"),
+  (r"Redirect\.Hdoc", "F-bsnl-heredoc: with backslash-newline continuations between a here-document operator and a following && / | operator, the continuation lines are emitted into the here-document body"),
+  (r"Block became CallExpr", "F-empty-block: an empty `{ }` (valid in mksh and zsh) is printed as `{}` under Minify, which re-parses as a command word"),
+  (r"ParamExp\.(Exp|Repl)>", "F-bsnl-param: for a for-loop word list continued with backslash-newline, the continuation/indentation is emitted inside the ${...} operand of an item"),
   (r"Block became CallExpr|Minify\|`(done|elif|fi|for|select|w)`|Minify\|not a valid arithmetic operator|Minify\|reached EOF without matching `\{`",
    "F-empty-block: an empty `{ }` (valid in mksh and zsh) is printed as `{}` under Minify, and by FunctionNextLine when printed on its own, which re-parses as a command word and derails whatever follows"),
   (r"Minify\|`&` must be followed by an expression|BinaryCmd became LetClause", "F-let-minify: Minify keeps no separator after the last expression of a `let` clause, so a following && || | & or redirection is glued to it and re-parsed as arithmetic"),
